@@ -1,4 +1,5 @@
 import GapicModel.Model.Metadata
+import GapicModel.Pinned.Funcs
 /-
 C15 — gapic_metadata.json and the fix-up script describe the generated surface exactly.
 Property theorems about `Model/Metadata.lean` (+ the helper lemmas they need, in `section Aux`).
@@ -538,5 +539,25 @@ theorem duplicate_service_names_merge_counterexample :
       [⟨"Foo".toList, [⟨sRest, "FooClient".toList, [⟨"Ping".toList, ["ping".toList, "ping".toList]⟩]⟩]⟩] := by decide
 
 end Examples
+
+section Translated
+open GapicModel.PyRt
+
+/-- `makePrivate` IS the code's current `utils.make_private` (translated by harness/pyfun2lean.py, re-bridged on every run) -/
+theorem makePrivate_is_translated (s : List Char) :
+    GapicModel.Model.Metadata.makePrivate s = Pinned.Funcs.make_private s := by
+  cases s with
+  | nil => rfl
+  | cons c cs =>
+    simp only [GapicModel.Model.Metadata.makePrivate, Pinned.Funcs.make_private, startswith, List.isPrefixOf]
+    by_cases h : c = '_'
+    · subst h; simp
+    · have : ('_' == c) = false := by simp [beq_eq_false_iff_ne]; exact fun h' => h h'.symm
+      simp [this]
+      split
+      · rename_i heq; simp at heq; exact absurd heq.1 h
+      · rfl
+
+end Translated
 
 end GapicModel.Props.C15
